@@ -443,6 +443,44 @@ theorem kok_root_clause (ops : List MapOp) (s : Schema) (hk : s.kind = .dict ∨
   · exact dict_keys_nodup ops s hk hnd none [] next next'
   · exact sparse_keys_nodup ops s hk hnd none [] next next'
 
+/-! ### `FieldsNodup` is exactly the hypothesis
+
+`keys_exact`, `keys_exact_nodup`, `sparse_keys`, `nodup_*`, `compound_keys_exact` all assume `FieldsNodup`
+("the class declares every field name once").  `Dict.of` enforces it; the declarative route
+(`class X(Schema)` with multiple inheritance) is supposed to produce it ("each name appearing once").  It
+cannot be dropped: a class declaring a name twice has, in the model, a fresh instance with two members under
+that key (`nodup_init_iff`) — where a Python dict silently keeps the last one, so that the instance holds
+fewer members than declared fields and a member of the wrong field class.  The runner reports
+`fieldsNodupB` of the declaration it was given next to every trace, the harness reports the same of the real
+class: a class with duplicate names is a correspondence failure even before any member is looked at. -/
+
+theorem fieldsNodupB_iff (n : Node) : fieldsNodupB n.sch = true ↔ FieldsNodup n := by
+  simp [fieldsNodupB, FieldsNodup]
+
+/-- **nodup_init_iff.**  For a Dict class the fresh instance has pairwise distinct keys IF AND ONLY IF the
+    class declares every name once: `FieldsNodup` is necessary, not only sufficient. -/
+theorem nodup_init_iff (s : Schema) (hd : s.kind = .dict) (parent : Option Nat) (key : Str) (next : Nat) :
+    KeysNodup (blank s parent key next).1 ↔ (s.subs.map Schema.key).Nodup := by
+  have hb := blank_hdr s parent key next
+  have hs : (blank s parent key next).1.sch = s := (hdr_eq_parts hb).2.2.1
+  have hkind : (blank s parent key next).1.kind = .dict := by unfold Node.kind; rw [hs]; exact hd
+  have hk := (mapinv_init s (Or.inl hd) parent key next).dense hkind
+  rw [hs] at hk
+  unfold KeysNodup
+  rw [hk]
+
+/-- the seeded shape: `field_schema = [label, ident:Integer, ident:String, extra]` -/
+def exDupClass : Schema :=
+  .mk { cid := 1, kind := .dict } .none
+    [.mk { cid := 4, kind := .string, name := some ['l'] } .none [],
+     .mk { cid := 3, kind := .integer, name := some ['i'] } .none [],
+     .mk { cid := 2, kind := .string, name := some ['i'] } .none [],
+     .mk { cid := 5, kind := .string, name := some ['e'] } .none []]
+
+example : fieldsNodupB exDupClass = false := by decide
+example : ¬ KeysNodup (blank exDupClass none [] 1).1 :=
+  fun h => absurd ((nodup_init_iff exDupClass rfl none [] 1).mp h) (by decide)
+
 /-! ### non-vacuity -/
 
 /-- the SparseDict history of `C10Keys` (`s['b'] = 5; s.update({'a': 'v'}, c=1); del s['b']; …; s |= [...]; s.set(...)`)
